@@ -1775,4 +1775,11 @@ theorem p_strict_sni_streams (re : Bytes → Bytes → Bool) (ops : List Op) (N 
           (¬ ∃ c, Stored (run init ops) c ∧ CertCovers c N) ∧ lower (stripPort a) = N) :=
   fun a _ h => p_strict_sni re ops N hN a h
 
+
+theorem p_gate_scope (sni : Option Bytes) (names : Option (List Bytes)) (a : Bytes) :
+    routeAllowed false sni names a = true ∧ routeAllowed true none names a = true := by
+  constructor
+  · cases sni <;> simp [routeAllowed]
+  · simp [routeAllowed]
+
 end Sozu.Tls
